@@ -241,3 +241,28 @@ def intersection_scores(arc_set, k, has_insertion=True, has_deletion=True):
             for i, s_ in enumerate(outs):
                 scores[(v, s_ % 4)] = scores.get((v, s_ % 4), 0) + len(branch[i] | own)
     return scores
+
+
+def safe_starts(rows):
+    """Vertices from which encode terminates for every message: every reachable vertex has an out-arc and can reach a
+    branching vertex."""
+    n = len(rows)
+    s = set(v for v in range(n) if out_degree(rows, v) >= 1)
+    changed = True
+    while changed:
+        changed = False
+        for v in sorted(s):
+            if any(w not in s for w in rows[v] if w >= 0):
+                s.discard(v)
+                changed = True
+        good = set(v for v in s if out_degree(rows, v) >= 2)
+        grew = True
+        while grew:
+            grew = False
+            for v in s:
+                if v not in good and any(w in good for w in rows[v] if w >= 0):
+                    good.add(v)
+                    grew = True
+        if good != s:
+            s, changed = good, True
+    return sorted(s)
